@@ -125,10 +125,18 @@ def task(t):
             rec('exception:' + type(e).__name__, 'raised %r' % (e,), case)
         if len(got_all) > 24:
             got_all = got_all[-8:]
+            # the receiving manager collects in the middle of the series: whatever the shared
+            # memo of the library remembers must stay alive (or be forgotten), the numbers freed
+            # here are re-used by the following copies
+            env.settle()
+            tgt.collect_garbage()
     # target canonical with exact counts; functions already there intact; source untouched
     env.settle()
     try:
-        live = [h for h, _ in held] + [h for h, _ in got_all] + list(shared.values())
+        # (the shared memo is the library's: whatever it stores, only Function objects hold
+        # references)
+        live = [h for h, _ in held] + [h for h, _ in got_all] + [
+            x for x in shared.values() if hasattr(x, 'node')]
         ext = {}
         for h in live:
             ext[abs(h.node)] = ext.get(abs(h.node), 0) + 1
